@@ -276,13 +276,19 @@ PROPS["C16"] = dict(
           "single/compound/compressed/CRC carrier, optionally with a doubled header: when the header must not be accepted the outcome is nothing (no outbound "
           "byte, no delegate call, membership and health unchanged, no stream reply), otherwise the normal effect is required. (c) two real clusters with "
           "different labels on one network with cross join attempts and stray traffic never learn of each other. non-trivial = header split across fragments / "
-          "prefix, last-byte or skip-mode mismatches and all accepted cases / a cross-cluster attempt; thorough adds native fuzzing of (a)"),
+          "prefix, last-byte or skip-mode mismatches and all accepted cases / a cross-cluster attempt; thorough adds native fuzzing of (a). (d) the header as the node itself adds and removes it on real sockets: "
+          "two real nodes with one label of 1-255 bytes on memberlist's own NetTransport, 1-8 goroutines sending 2-40 unique user messages of 2-60000 bytes in both directions at once: every delivered "
+          "message is byte-identical to one that was sent, none more often than sent, none lost after 3 resends; also under the race detector"),
     tests=[
         dict(name="pkt", run="^TestCodecPacket$", quick=dict(shards=2, checks=20000, timeout=300), thorough=dict(shards=4, checks=400000, timeout=1200)),
         dict(name="stream", run="^TestCodecStream$", quick=dict(shards=4, checks=4000, timeout=300), thorough=dict(shards=6, checks=100000, timeout=1800)),
         dict(name="inter", run="^TestCodecStreamInterleaved$", quick=dict(shards=4, checks=1500, timeout=300), thorough=dict(shards=6, checks=40000, timeout=1800)),
         dict(name="iso", run="^TestIsolation$", quick=dict(shards=6, checks=800, timeout=600), thorough=dict(shards=6, checks=30000, timeout=3000)),
         dict(name="two", run="^TestTwoClusters$", quick=dict(shards=4, checks=40, timeout=600), thorough=dict(shards=4, checks=1500, timeout=3000)),
+        dict(name="sock", pkg="./props/c12", run="^TestRoundTripSockets$", quick=dict(shards=1, checks=150, timeout=600, env=dict(VF_SOCK_LABEL=1)),
+             thorough=dict(shards=2, checks=6000, timeout=3400, env=dict(VF_SOCK_LABEL=1))),
+        dict(name="sock-race", pkg="./props/c12", run="^TestRoundTripSockets$", race=True, quick=dict(shards=2, checks=40, timeout=900, env=dict(VF_SOCK_LABEL=1)),
+             thorough=dict(shards=2, checks=1500, timeout=3400, env=dict(VF_SOCK_LABEL=1))),
         dict(name="seedcorpus", kind="plain", run="^Fuzz", quick=dict(shards=1, timeout=300)),
         dict(name="fuzzpkt", kind="fuzz", run="^FuzzLabelPacket$", thorough=dict(fuzztime="120s", timeout=400)),
         dict(name="fuzzstream", kind="fuzz", run="^FuzzLabelStream$", thorough=dict(fuzztime="180s", timeout=500)),
